@@ -111,11 +111,9 @@ func (c *rcase) expectedPage(section string, paged, first, last bool) string {
 	}
 	body += c.Tail
 	if c.MSink {
-		if body == "" {
-			body = section // cannot happen: Static is never empty
-		} else {
-			body += "\n" + section
-		}
+		// template text, line break, menu - also when the template is empty (the page then starts with, or has after
+		// the error line, an empty line where the text would be)
+		body += "\n" + section
 	}
 	if c.ErrPfx != "" {
 		if body == "" {
@@ -360,6 +358,12 @@ func genRCase(r *vk.RNG, wantSink int) *rcase {
 	}
 	c.ReuseSizer = r.Chance(1, 2)
 	c.Resized = r.Chance(1, 4)
+	if wantSink == 2 && c.ErrPfx != "" && r.Chance(1, 2) {
+		// a node that is nothing but a paged menu (empty template), shown with an error line - the catch node itself,
+		// or a node the catch node bounces back to
+		c.Static, c.Order, c.Tail = "", nil, ""
+		c.Values, c.Sizes = map[string]string{}, map[string]uint16{}
+	}
 	return c
 }
 
